@@ -29,7 +29,7 @@ ASSUMPTIONS = [
     "grids inside the C13 domain (>= 2 states per half-axis); n-d grids of at most 15 points per axis (2-d) / 9 (3-d)",
 ]
 REQUIRED_COUNTERS = ["rate_comparisons_1d", "intensity_checks", "tiling_checks", "nd_cell_comparisons", "nd_row_sums",
-                     "grid_init_postconditions", "infinite_variation_copula_chains", "second_model_on_the_same_grid", "chain_rebuilt_after_refining_the_same_grid"]
+                     "grid_init_postconditions", "infinite_variation_copula_chains", "second_model_on_the_same_grid", "chain_rebuilt_after_refining_the_same_grid", "model_object_used_by_an_earlier_chain"]
 MIN_NONTRIVIAL = {"quick": 60, "thorough": 400}
 THOROUGH_ROUNDS = 5      # the thorough tier runs the generators this many times (different seeds)
 SHARD_TIMEOUT = {"quick": 900, "thorough": 7200}
@@ -54,7 +54,8 @@ def gen_cases(tier, seed):
             if ctor == "probstep":
                 lev = min(lev, 2)
             meths = list(C.METHODS_1D) if thorough or i % 5 == 0 else [C.METHODS_1D[i % 6], C.METHODS_1D[(i + 3) % 6]]
-            cases.append({"model": m, "grid": G.gen_grid_spec(rng, ctor, 1), "level": lev, "methods": meths, "then_refine": bool(i % 3 == 0 and lev <= 2)})
+            cases.append({"model": m, "grid": G.gen_grid_spec(rng, ctor, 1), "level": lev, "methods": meths, "then_refine": bool(i % 3 == 0 and lev <= 2),
+                          "after_narrow_chain": ctor in ("fixed", "geometric_bounds")})
     # copulas
     nnd = 14 if not thorough else 120
     kinds = ["clayton", "independent", "dependent", "clayton"]
@@ -137,7 +138,18 @@ def _run_1d(case, R, prebuilt=None):
         R.skip("grid-too-large")
         return
     ctor = g["ctor"]
-    rates, errs, lo, hi, problems = C.oracle_rates_1d(mspec, model, grid)
+    oracle_model = model
+    if case.get("after_narrow_chain") and prebuilt is None and ctor in ("fixed", "geometric_bounds"):
+        # the user's model object first serves a chain on a narrow grid (it must come out of it unchanged); the oracle reads the density
+        # of an identical model built apart
+        oracle_model = W.build_model(mspec)
+        try:
+            narrow = G.build_grid({"ctor": "fixed", "dim": 1, "h": float(g["_h"]) / 3.0, "n": 7}, model)
+            C.build_chain(model, narrow, "ALIAS", False)
+            R.hit("model_object_used_by_an_earlier_chain")
+        except Exception:  # noqa: BLE001  (the narrow chain itself is not the subject)
+            pass
+    rates, errs, lo, hi, problems = C.oracle_rates_1d(mspec, oracle_model, grid)
     o = grid.origin_coordinate.value
     n = rates.size
     R.hit("tiling_checks")
